@@ -8,7 +8,7 @@ import S3V.Crypto.Base64
 Driver for component `secrets` (C16).
 case line:
 `secrets \t id \t kind \t outcome \t backend \t seed \t | \t status \t code \t accepted \t op \t nsinks \t nbytes
- \t nrecords \t hits \t corrsig \t secret(hex) \t ak(hex) \t dbg_secretkey(hex) \t json_secretkey(hex) \t dbg_credentials(opt hex) \t nredacted`
+ \t nrecords \t hits \t corrsig \t secret(hex) \t ak(hex) \t dbg_secretkey(hex) \t json_secretkey(hex) \t dbg_credentials(opt hex) \t nredacted \t trace`
 
 * SPEC (independent of the model): any occurrence of a secret (or of a derived signing key) reported by the
   harness's search of the sinks, or found by `SecretsSpec.leaksB` in the renderings on the line, is a SPECFAIL whose
@@ -17,7 +17,8 @@ case line:
   (3) its JSON = `renderSerializeJson Gen.secretKeySerialize`, (4) `{:?}` of the credentials the backend received =
   `debugVal … (Some(Credentials{…}))`, (5) outcome `ok` is accepted and every other outcome is refused, (6) the
   capture is alive (records were captured, sinks were searched; behind the real s3s-fs backend the span fields of its
-  `#[instrument]`ed methods show the redacted key).  The three `canary-*` kinds leak on purpose inside
+  `#[instrument]`ed methods show the redacted key), (7) the sequence of (level, site, field names) of the records on the
+  authentication path = the one `Secrets.check` emits (ties the emission model of the non-interference theorems).  The three `canary-*` kinds leak on purpose inside
   the harness: the model predicts a hit in exactly that sink (this checks the search itself on every run).
 -/
 open S3V S3V.Secrets S3V.SecretsSpec S3V.Gen.Emit
@@ -41,6 +42,51 @@ def rootFirst (hits : List String) : List String :=
   let roots := ["debug:SecretKey", "json:SecretKey", "debug:Credentials"]
   roots.flatMap (fun r => hits.filter (inSink r)) ++ hits
 
+/-! ### the emission model of the signature check against the captured trace
+
+The driver instantiates `Secrets.check` for the case (scheme and "logs its string to sign" from the kind; the path
+from the outcome: rejected before the key is fetched / unknown key / MAC differs / MAC equal), with a toy MAC —
+the theorems hold for every MAC, and the sequence of sites does not depend on it — and compares the sequence of
+`(level, site, field names)` it emits with the sequence the capturing subscriber saw on the real code. -/
+
+def toyCrypto : Crypto := { hmac256 := fun k m => k ++ m, hmac1 := fun k m => k ++ m, hex := id, b64 := id }
+
+def levelName : Level → String
+  | .trace => "TRACE" | .debug => "DEBUG" | .info => "INFO" | .warn => "WARN" | .error => "ERROR"
+
+def siteName : Site → String
+  | .prepareErr => "prepareErr" | .failedToPrepare => "failedToPrepare" | .signatureMismatch => "signatureMismatch"
+  | .v2StringToSign => "v2StringToSign" | .checkedSignature => "checkedSignature"
+
+def fieldName : Field → String
+  | .signature => "signature" | .expected => "expected" | .stringToSign => "string_to_sign"
+  | .errCode => "err" | .errMessage => "err"
+
+/-- field names are compared only where the model names the real fields one to one -/
+def projectEmission : Emission → Option String
+  | .log lvl site fields =>
+    let named := site = .signatureMismatch || site = .v2StringToSign
+    some (levelName lvl ++ ":" ++ siteName site ++
+      (if named then String.join (fields.map fun (f, _) => "+" ++ fieldName f) else ""))
+  | _ => none
+
+def modelTrace (variant : Bool) (kind outcome : String) (code secret ak : Bytes) : String :=
+  let v2 := kind.startsWith "v2"
+  let base : AuthReq :=
+    { scheme := if v2 then .v2 else .v4, pre := none, preInsideCheck := false, accessKey := ak,
+      date := sb "20240101", region := sb "us-east-1", service := sb "s3", stringToSign := sb "GET", provided := [],
+      logsStringToSign := kind = "v2hdr" || kind = "v2hdr-put" }
+  let good := computeSig toyCrypto secret base
+  let known : Bytes → Option Bytes := fun k => if k = ak then some secret else none
+  let (r, lookup) : AuthReq × (Bytes → Option Bytes) :=
+    if outcome = "ok" || outcome = "badchunk" || outcome = "truncated" then ({ base with provided := good }, known)
+    else if outcome = "badsig" || outcome = "wrongsecret" || outcome = "tampered" then ({ base with provided := [] }, known)
+    else if outcome = "unknownkey" then (base, fun _ => none)
+    else if outcome = "anonymous" then ({ base with pre := some (code, []) }, known)
+    else ({ base with pre := some (code, []), preInsideCheck := true }, known)   -- malformed*, expired, skewed
+  let items := (check toyCrypto secretKeyDebug variant lookup r).2.filterMap projectEmission
+  if items.isEmpty then "-" else ",".intercalate items
+
 def canarySink (kind : String) : Option String :=
   if kind = "canary-log" then some "log"
   else if kind = "canary-debug" then some "debug:canary"
@@ -50,7 +96,7 @@ def canarySink (kind : String) : Option String :=
 def judge (fs : List String) : String :=
   match fs with
   | [_comp, id, kind, outcome, backend, _seed, "|", status, code, accepted, _op, nsinks, nbytes, nrecords, hits,
-     corrsig, secretH, akH, dbgSkH, jsonSkH, dbgCredH, nredacted] =>
+     corrsig, secretH, akH, dbgSkH, jsonSkH, dbgCredH, nredacted, trace] =>
     match hexDecode secretH, hexDecode akH, hexDecode dbgSkH, hexDecode jsonSkH, optHexDecode dbgCredH with
     | some secret, some ak, some dbgSk, some jsonSk, some dbgCred =>
       let hitList := if hits = "-" then [] else hits.splitOn ","
@@ -85,8 +131,16 @@ def judge (fs : List String) : String :=
           -- the `#[instrument]` spans of s3s-fs record the whole `S3Request`: the redacted key must be visible there
           disagree id "redacted SecretKey in the s3s-fs span fields" "no captured record contains it"
         else
+        -- which variant does the implementation exhibit? (true = records the MAC it computed on a mismatch)
+        let asIs := modelTrace true kind outcome (sb code) secret ak
+        let repaired := modelTrace false kind outcome (sb code) secret ak
+        if trace ≠ asIs && trace ≠ repaired then disagree id ("trace=" ++ asIs) ("trace=" ++ trace)
+        else if trace = repaired && trace ≠ asIs && corrsig = "1" then
+          disagree id "repaired variant: no valid signature in the log" "valid signature found in the log"
+        else
           agree id (kind ++ ":" ++ (if accepted = "1" then "accepted" else "refused-" ++ code)
-                    ++ (if corrsig = "1" then "+valid-signature-logged" else ""))
+                    ++ (if corrsig = "1" then "+valid-signature-logged" else "")
+                    ++ (if trace = repaired && trace ≠ asIs then "+repaired" else ""))
     | _, _, _, _, _ => badline id
   | _ :: id :: _ => badline id
   | _ => badline "?"
